@@ -1,8 +1,11 @@
 ------------------------------ MODULE Trace_Views ------------------------------
-EXTENDS Views, TLC, Json, IOUtils
+EXTENDS Views, TLC, Json, IOUtils, Integers
 Rec == ndJsonDeserialize(IOEnv.TRACE)
-VARIABLES l, dead          \* dead: the view of the current run (file, view command) has ended at a payload it could not cut
-Init == l = 1 /\ dead = FALSE
+VARIABLES l, dead, gone, n, deadBatch
+\* The view of one run (file, view command).  n: packets given to the view so far (the reader hands them over in batches of 100).  A payload that cannot
+\* be cut gets its RDH row, a fatal error is reported, the REST OF ITS BATCH is abandoned (deadBatch) and the stop is requested (dead); the view goes on
+\* with the next batches until it sees the stop flag - from then on it prints nothing (gone).
+Init == l = 1 /\ dead = FALSE /\ gone = FALSE /\ n = 0 /\ deadBatch = -1
 \* drop the fields a row of that kind does not print
 Norm(row) == IF row.k = "RDH" THEN row
              ELSE IF row.k = "TDH" THEN [k |-> row.k, off |-> row.off, w |-> row.w, a |-> row.a, orbit |-> row.orbit, bc |-> row.bc]
@@ -11,12 +14,22 @@ Next == /\ l <= Len(Rec) /\ Rec[l].e = "Pkt"
         /\ LET ev == Rec[l]
                same == l > 1 /\ Rec[l - 1].file = ev.file /\ Rec[l - 1].view = ev.view
                d == same /\ dead
-               exp == IF ev.selected /\ ~d THEN PacketRows(ev.off, ev.rdh, ev.payload, ev.withData) ELSE << >>      \* a packet the filter does not select has no rows; nor has any packet after the end of the view
-               expn == [i \in 1..Len(exp) |-> Norm(exp[i])]
-           IN /\ IF expn = ev.rows THEN TRUE ELSE PrintT("REJECT " \o ToJson([l |-> l, tag |-> "rows", expected |-> expn, observed |-> ev.rows]))
-              /\ dead' = (d \/ (ev.selected /\ ViewEnds(ev.payload)))
+               g == same /\ gone
+               n0 == IF same THEN n ELSE 0
+               db == IF same THEN deadBatch ELSE -1
+               batch == n0 \div 100                                   \* the batch this packet is in, if it is given to the view
+               full == IF ev.selected THEN PacketRows(ev.off, ev.rdh, ev.payload, ev.withData) ELSE << >>      \* a packet the filter does not select has no rows
+               fulln == [i \in 1..Len(full) |-> Norm(full[i])]
+               abandoned == ev.selected /\ db = batch
+               ok == IF g \/ abandoned THEN ev.rows = << >> ELSE IF d THEN ev.rows = fulln \/ ev.rows = << >> ELSE ev.rows = fulln
+               fatalHere == ev.selected /\ ~g /\ ~abandoned /\ ev.rows # << >> /\ ViewEnds(ev.payload)
+           IN /\ IF ok THEN TRUE ELSE PrintT("REJECT " \o ToJson([l |-> l, tag |-> "rows", expected |-> (IF g \/ abandoned THEN << >> ELSE fulln), observed |-> ev.rows]))
+              /\ dead' = (d \/ fatalHere)
+              /\ deadBatch' = (IF fatalHere THEN batch ELSE db)
+              /\ gone' = (g \/ (d /\ ~abandoned /\ ev.selected /\ ev.rows = << >> /\ fulln # << >>))
+              /\ n' = (IF ev.selected THEN n0 + 1 ELSE n0)
         /\ l' = l + 1
-Spec == Init /\ [][Next]_<< l, dead >>
+Spec == Init /\ [][Next]_<< l, dead, gone, n, deadBatch >>
 Accepted == IF TLCGet("stats").diameter - 1 = Len(Rec) THEN TRUE
             ELSE Print(<<"TRACE NOT ACCEPTED: matched", TLCGet("stats").diameter - 1, "of", Len(Rec)>>, FALSE)
 ================================================================================
